@@ -16,7 +16,8 @@
  *   comp F tag ref coder p hex | chunk F tag ref nt nd d.. c.. coder p fillhex nw (o.. hex).. | chunkhint F tag ref nd n..
  *   dup F tag ref otag oref | del F tag ref | lbw F tag ref n (pos hex).. (rewrite/extend an existing element)
  *   vgdel F slot which delobj | dfsd F nt rank d.. 3 strings (3 strings per dim).. hex | sdselect i | sddimname j namehex |
- *   sddimattr j namehex nt cnt hex | sdann F idx type hex | grlut seed | grattr scope namehex nt cnt hex | dfpal F seed | defonly F tag ref
+ *   sddimattr j namehex nt cnt hex | sdann F idx type hex | grlut seed | grattr scope namehex nt cnt hex | dfpal F seed | defonly F tag ref |
+ *   chunkw F tag ref nd n (o.. hex).. | compw F tag ref hex   (rewrites: compressed data that grows becomes linked blocks)
  *   vs F slot il blk nf (namehex type order).. nrec hex | vsapp F slot nrec hex | vsattr F slot findex namehex nt cnt hex
  *   vg F slot namehex classhex nm (kind a b).. | vgattr F slot namehex nt cnt hex
  *   sdstart F | sdcreate namehex nt rank d.. | sdfill hex | sdchunk coder p c.. | sdcomp coder p | sdblk n |
@@ -658,6 +659,24 @@ static void run_op(long ln)
         for (int i = 0; i < 768; i++) pal[i] = (unsigned char)(seed * 3 + i);
         ok = F >= 0 && F < NF && fid[F] == FAIL && sd_id == FAIL && gr_id == FAIL && DFPaddpal(fname[F], pal) != FAIL;
         if (ok) exists_[F] = 1;
+    }
+    else if (!strcmp(op, "chunkw")) {   /* rewrite chunks of an existing chunked element: chunkw F tag ref nd n (o.. hex).. */
+        int F = argl(), tag = argl(), ref = argl(), nd = argl(), nw = argl();
+        int32 aid = F_OPEN(F) ? Hstartaccess(fid[F], tag, ref, DFACC_WRITE) : FAIL;
+        ok = aid != FAIL;
+        for (int w = 0; w < nw && ok; w++) {
+            int32 org[8];
+            for (int i = 0; i < nd && i < 8; i++) org[i] = argl();
+            unhex(args(), databuf);
+            ok = HMCwriteChunk(aid, org, databuf) != FAIL;
+        }
+        if (aid != FAIL) ok = (Hendaccess(aid) != FAIL) && ok;
+    }
+    else if (!strcmp(op, "compw")) {    /* rewrite a compressed element from its start: compw F tag ref hex */
+        int F = argl(), tag = argl(), ref = argl(); int n = unhex(args(), databuf);
+        int32 aid = F_OPEN(F) ? Hstartaccess(fid[F], tag, ref, DFACC_WRITE) : FAIL;
+        ok = aid != FAIL && Hwrite(aid, n, databuf) == n;
+        if (aid != FAIL) ok = (Hendaccess(aid) != FAIL) && ok;
     }
     else if (!strcmp(op, "defonly")) {  /* an element that is defined but never gets data: defonly F tag ref */
         int F = argl(), tag = argl(), ref = argl();
